@@ -200,6 +200,10 @@ pub fn run(cfg: &Cfg) -> (&'static str, Report, String, String) {
             }
         }
     }
+    if cfg.miri() {
+        // ~30 ms per monitored parse under the interpreter: the type limits only
+        cores = ["-129", "-128", "-1", "0", "7", "127", "128", "255", "256"].iter().map(|s| s.to_string()).collect();
+    }
     cores.sort();
     cores.dedup();
     rep.merge(par_for(cfg, cores.len(), |i, r| {
@@ -210,17 +214,20 @@ pub fn run(cfg: &Cfg) -> (&'static str, Report, String, String) {
     }));
     // (b) all short strings over a hostile alphabet
     let alpha = ["0", "1", "9", "-", "+", "a", " ", "٣"];
-    let all = strings_upto(&alpha, cfg.by(2, 4, 6));
+    let all = strings_upto(&alpha, cfg.by(1, 4, 6));
     rep.merge(par_for(cfg, all.len(), |i, r| {
         ints(r, &all[i]);
         nontrivial(r, &all[i]);
     }));
     // (c) wide-type neighbourhoods
-    let wide = wide_candidates();
+    // (building and sorting the ~20 000 candidates is itself too slow for the interpreter)
+    let wide: Vec<String> = if cfg.miri() {
+        ["255", "256", "-128", "-129", "65535", "65536", "4294967295", "4294967296", "18446744073709551615", "18446744073709551616", "-9223372036854775808", "-9223372036854775809", "340282366920938463463374607431768211455", "340282366920938463463374607431768211456", "-170141183460469231731687303715884105728", "-170141183460469231731687303715884105729", "0000000000000000000000000000000000000000000007"].iter().map(|s| s.to_string()).collect()
+    } else {
+        wide_candidates()
+    };
     rep.merge(par_for(cfg, wide.len(), |i, r| {
-        if cfg.miri() && i % 97 != 0 {
-            return;
-        }
+
         for sfx in ["", ";rest", "a", " 1"] {
             let s = format!("{}{}", wide[i], sfx);
             ints(r, &s);
@@ -232,7 +239,7 @@ pub fn run(cfg: &Cfg) -> (&'static str, Report, String, String) {
     }));
     // (d) bool
     let balpha = ["t", "r", "u", "e", "f", "a", "l", "s", " "];
-    let ball = strings_upto(&balpha, cfg.by(3, 5, 6));
+    let ball = strings_upto(&balpha, cfg.by(1, 5, 6));
     rep.merge(par_for(cfg, ball.len(), |i, r| bools(r, &ball[i])));
     if cfg.mine(0) {
         for core in ["true", "false", "True", "TRUE", "fals", "tru", "truefalse", "falsetrue"] {
